@@ -1052,6 +1052,28 @@ class Function(Ring):
         # rhs = self.totype(rhs)
         # return Function.pushforward(self.x.__class__.__iadd__,[self,rhs])
 
+    # augmented assignment writes into the node's value, as it does for ndarrays and
+    # UTPM instances (a node that is a view of a buffer writes through to the buffer);
+    # without these methods python would re-bind the name to a new node instead
+    def _inplace(self, result):
+        if numpy.isscalar(self.x):
+            # immutable value (python / numpy scalar): plain re-binding, as for numbers
+            return result
+        self[...] = result
+        return self
+
+    def __iadd__(self,rhs):
+        return self._inplace(self + rhs)
+
+    def __isub__(self,rhs):
+        return self._inplace(self - rhs)
+
+    def __imul__(self,rhs):
+        return self._inplace(self * rhs)
+
+    def __itruediv__(self,rhs):
+        return self._inplace(self / rhs)
+
 
     def __add__(self,rhs):
         rhs = self.totype(rhs)
